@@ -17,8 +17,9 @@ impl HasKey<Public> for V3 {
     type Key = PublicKey;
 
     fn decode(bytes: &[u8]) -> Result<PublicKey, PasetoError> {
-        // PASERK k3.public is the 49-byte compressed point only (no uncompressed / identity encodings)
-        if bytes.len() != 49 {
+        // PASERK k3.public is the 49-byte compressed point only (no uncompressed / identity encodings,
+        // and not the SEC1 "compact" tag 0x05, which is 49 bytes long too)
+        if bytes.len() != 49 || !matches!(bytes[0], 0x02 | 0x03) {
             return Err(PasetoError::InvalidKey);
         }
         p384::ecdsa::VerifyingKey::from_sec1_bytes(bytes)
